@@ -383,6 +383,11 @@ impl Stdfs {
         // ourselves out.
         let mut entries = Stdfs::entries(&opts.path)?.contents_first();
 
+        // Refuse a malformed symbolic expression before anything gets changed
+        if !opts.sym.is_empty() {
+            sys::mode(&Stdfs::entry(&opts.path)?, 0, &opts.sym)?;
+        }
+
         // Set the `max_depth` based on recursion
         entries = entries.max_depth(match opts.recursive {
             true => usize::MAX,
